@@ -107,6 +107,18 @@ FROM_SEQ = REG.add(Contract(
 
 CONTRACTS = [FROM_SEQ]
 
+# the class-call contract CTOR is the postcondition of MetaMolecule.__init__ without graph data, which is verified on its own
+# (contracts/metamol_init.py, instance no-graph-data); what stays assumed is the constructor protocol of the language
+from contracts import metamol_init as _MI      # noqa: E402
+CTOR.alias_of = _MI.INIT_EMPTY
+
+
+def lemma_ctor_alias(ctx):
+    """the proved postcondition of __init__ (no graph data) implies the class-call contract used by from_monomer_seq_linear"""
+    s_ = _MI.SELF.fresh("self")
+    return [("postcondition of MetaMolecule.__init__ without graph data  ->  `a MetaMolecule made without graph data is empty and has handed out no residue id`",
+             [_MI.initialised_empty(s_)], empty_graph(s_))]
+
 
 # ---- simple_seq_parsers._monomers_to_linear_nx_graph: the builder behind the .txt / .fasta / .ig readers --------------------------
 from pyvc.types import TNode, TOpt        # noqa: E402
